@@ -15,6 +15,8 @@ pub enum Block {
     Store { addr: u32, val: u8, short: bool },
     Bset { aa: u8, bit: u8 },
     Bclr { aa: u8, bit: u8 },
+    /// other bit stores on @aa:8: 0 = BNOT, 1 = BST (bit := C), 2 = BIST (bit := !C)
+    BitOp { aa: u8, bit: u8, op: u8 },
     /// register-only checksum arithmetic on ER4 (k selects the mix)
     Arith(u8),
     /// BSR to the shared subroutine (which is `Delay(n); RTS`)
@@ -27,6 +29,9 @@ pub enum Block {
     SetHandler { vector: u32, handler: usize },
     /// set_handler whose 8-byte argument block ends at the last byte of DRAM (`dram_end`) or of on-chip RAM
     SetHandlerAt { vector: u32, handler: usize, dram_end: bool },
+    /// set_handler whose argument block lies at 0xFFFD0C + 4*vector, so that its `address` word occupies the slot the
+    /// call itself saves ER5 to (vector 1-63)
+    SetHandlerAlias { vector: u8, handler: usize },
     /// write whose 12-byte argument block ends at the last byte of DRAM / on-chip RAM (buffer in the data area)
     WriteArgAt { text: Vec<u8>, dram_end: bool },
     /// TRAPA #0 with an unsupported call number
@@ -42,9 +47,19 @@ pub enum Block {
     /// the most expensive instruction form: MOV.L #progress,ER6 ; MOV.L @(0:24,ER6),ER1 (five fetch cycles + a long read)
     Heavy,
     /// rewrite a vector table entry at run time with ordinary stores: ER0 saved ; MOV.L #(top<<24 | handler),ER0 ; MOV.L ER0,@(4*vector) ; ER0 restored
-    SetVector { vector: u8, handler: usize, top: u8 },
+    SetVector {
+        vector: u8,
+        handler: usize,
+        top: u8,
+        /// the entry holds the handler's address + 1 (an odd address: the fetch ignores bit 0, frames and RTE must not)
+        #[serde(default)]
+        odd: bool,
+    },
     /// MOV.L #value,ER5
     LoadEr5(u32),
+    /// as SetCcr, but the crafted frame holds an ODD return address: RTE must load it exactly (the fetch ignores bit 0);
+    /// the instruction executed at the odd PC is an absolute JMP, which makes PC even again
+    OddRte(u8),
     /// a byte store through a register-based addressing mode: 1 = @ER6, 2 = @(d:16,ER6), 3 = @-ER6 (ER6 and R0L are clobbered)
     StoreVia { addr: u32, val: u8, mode: u8, disp: i16 },
     /// MOV.W #val,R0 ; MOV.W R0,@addr:24 (two byte writes: high at addr, low at addr+1)
@@ -89,7 +104,7 @@ pub struct GuestSpec {
     pub sub_delay: u16,
     /// initial CCR is loaded by a SetCcr-style prologue when Some
     pub init_ccr: Option<u8>,
-    /// the initial stack pointer lies this many bytes below the top of the stack region (multiple of 4)
+    /// the initial stack pointer lies this many bytes below the top of the stack region (odd values give an odd SP)
     #[serde(default)]
     pub stack_off: u16,
     /// how the exit address is reached: 0 = JMP @aa:24, 1 = falling through, 2 = BRA, 3 = JMP @ER0 (ER0 is the exit
@@ -177,7 +192,7 @@ impl GuestSpec {
             handlers_limit: if self.code_dram { DRAM_DATA } else { RAM_DATA },
             data: if self.data_dram { DRAM_DATA } else { RAM_DATA },
             data_limit: if self.data_dram { DRAM_DATA_LIMIT } else { RAM_STACK_LO },
-            stack_top: if self.stack_dram { DRAM_STACK_TOP } else { RAM_STACK_TOP } - (self.stack_off as u32 & 0x3fc),
+            stack_top: if self.stack_dram { DRAM_STACK_TOP } else { RAM_STACK_TOP } - (self.stack_off as u32 & 0x3ff),
             stack_lo: if self.stack_dram { DRAM_STACK_LO } else { RAM_STACK_LO },
         }
     }
@@ -281,6 +296,14 @@ impl GuestSpec {
                 Block::Store { addr, val, short } => a.store_b(*addr, *val, *short),
                 Block::Bset { aa, bit } => a.bset_abs8(*bit & 7, *aa),
                 Block::Bclr { aa, bit } => a.bclr_abs8(*bit & 7, *aa),
+                Block::BitOp { aa, bit, op } => {
+                    a.w(0x7f00 | *aa as u16);
+                    a.w(match op {
+                        0 => 0x7100 | (((*bit & 7) as u16) << 4),
+                        1 => 0x6700 | (((*bit & 7) as u16) << 4),
+                        _ => 0x6780 | (((*bit & 7) as u16) << 4),
+                    });
+                }
                 Block::Arith(k) => {
                     a.mov_l_imm(6, 0x1234_5678 ^ ((*k as u32) * 0x0101_0101));
                     a.add_l_rr(6, 4);
@@ -347,6 +370,21 @@ impl GuestSpec {
                     a.mov_l_imm(1, blk);
                     a.trapa(0);
                 }
+                Block::SetHandlerAlias { vector, handler } => {
+                    let target = hinfo.get(*handler).ok_or("SetHandlerAlias: no such handler")?.addr;
+                    if *vector == 0 || *vector >= 64 {
+                        return Err("SetHandlerAlias: vector number".into());
+                    }
+                    // the block is written right before the call (other set_handler calls save ER5 into this area)
+                    let blk = 0xfffd0c + 4 * *vector as u32;
+                    a.mov_l_imm(0, *vector as u32);
+                    a.mov_l_to_abs24(0, blk);
+                    a.mov_l_imm(0, target);
+                    a.mov_l_to_abs24(0, blk + 4);
+                    a.mov_l_imm(0, 113);
+                    a.mov_l_imm(1, blk);
+                    a.trapa(0);
+                }
                 Block::WriteArgAt { text, dram_end } => {
                     let use_big = data.here() + text.len() as u32 + 16 > lay.data_limit;
                     let d: &mut Asm = if use_big { &mut big } else { &mut data };
@@ -389,17 +427,28 @@ impl GuestSpec {
                     a.mov_l_imm(6, progress);
                     a.raw(&[0x01, 0x00, 0x78, 0x60, 0x6b, 0x21, 0x00, 0x00, 0x00, 0x00]);
                 }
-                Block::SetVector { vector, handler, top } => {
+                Block::SetVector { vector, handler, top, odd } => {
                     let target = hinfo.get(*handler).ok_or("SetVector: no such handler")?.addr;
                     if *vector == 0 || *vector >= 64 {
                         return Err("SetVector: vector number".into());
                     }
                     a.push_l(0);
-                    a.mov_l_imm(0, ((*top as u32) << 24) | (target & 0x00ff_ffff));
+                    a.mov_l_imm(0, ((*top as u32) << 24) | (target & 0x00ff_ffff) | (*odd as u32));
                     a.mov_l_to_abs24(0, 4 * *vector as u32);
                     a.pop_l(0);
                 }
                 Block::LoadEr5(v) => a.mov_l_imm(5, *v),
+                Block::OddRte(c) => {
+                    // push ER0 (4) ; MOV.L #frame,ER0 (6) ; push ER0 (4) ; RTE (2) ; L: JMP @M (4) ; M: pop ER0
+                    let l = a.here() + 16;
+                    a.push_l(0);
+                    a.mov_l_imm(0, ((*c as u32) << 24) | ((l | 1) & 0x00ff_ffff));
+                    a.push_l(0);
+                    a.rte();
+                    debug_assert_eq!(a.here(), l);
+                    a.jmp_abs(l + 4);
+                    a.pop_l(0);
+                }
                 Block::StoreVia { addr, val, mode, disp } => {
                     a.mov_b_imm(R0L, *val);
                     match mode {
@@ -452,11 +501,12 @@ impl GuestSpec {
                 a.jmp_ern(0);
                 e
             }
-            5 | 6 | 7 => {
-                // the exit address lies in another memory region (nothing there is ever executed)
+            5 | 6 | 7 | 8 => {
+                // the exit address lies in another memory region (nothing there is ever executed); 8: address 0
                 let e = match self.exit_style {
                     5 => 0x000040,
                     6 => 0x5ffffe,
+                    8 => 0x000000,
                     _ => 0xffff1e,
                 };
                 a.jmp_abs(e);
